@@ -36,3 +36,9 @@ Definition model_pattern_run (ds : dataset) (q : query) (p : pop) : list mu :=
   exec ds (mk_eview ds (q_from q) (q_from_named q)) None p [[]].
 Definition model_answer_run (ds : dataset) (q : query) (p : pop) : list (list (option term)) :=
   finalize_select (q_sel q) (model_pattern_run ds q p).
+
+(* the classifier of the known findings (Classes.v) and the hypotheses of C01_pattern, per case *)
+Require Import KV.Sparql.Sem KV.Sparql.Bridge KV.Sparql.Classes KV.Sparql.PatternProofs.
+Definition classify_run (q : query) : list N * bool := classify q.
+Definition coverage_run (ds : dataset) (q : query) : bool * bool :=
+  (proved_fragment q, agree (mk_view ds (q_from q) (q_from_named q)) None (sel_where (q_sel q))).
